@@ -178,12 +178,7 @@ class Serializable(object):  # pylint: disable=too-few-public-methods
                 else:
                     human_readable_name = ' '.join(name.split('_')).title()
             else:
-                post_text_encoder = cls.post_text_encoder
-                cls.post_text_encoder = SerializableTextEncoder()
-                try:
-                    _, human_readable_name = cls._markdown_result(name)
-                finally:
-                    cls.post_text_encoder = post_text_encoder
+                _, human_readable_name = _SerializablePlainText._markdown_result(name)
 
             name_dict[name] = human_readable_name
 
@@ -295,6 +290,10 @@ class Serializable(object):  # pylint: disable=too-few-public-methods
     def as_markdown(self):
         _, result = self._as_markdown(0)
         return result
+
+
+class _SerializablePlainText(Serializable):  # pylint: disable=too-few-public-methods
+    post_text_encoder = SerializableTextEncoder()
 
 
 @attr.s
